@@ -264,6 +264,16 @@ void instance_t::parse()
     catch (const std::exception& err) {
       error_flag = true;
 
+      // read_line() gives up on a line that does not fit its buffer and
+      // getline leaves the stream failed in the middle of that line: skip
+      // the rest of it, or nothing after it in this file would be read (and
+      // no later error reported).
+      if (in.fail() && ! in.bad() && ! in.eof()) {
+        in.clear();
+        in.ignore(std::numeric_limits<std::streamsize>::max(), '\n');
+        context.curr_pos = in.tellg();
+      }
+
       string current_context = error_context();
 
       if (parent) {
@@ -331,15 +341,18 @@ std::streamsize instance_t::read_line(char *& line)
   in.getline(context.linebuf, maxLine);
   std::streamsize len = in.gcount();
 
-  if (in.fail() && len == (parse_context_t::MAX_LINE - 1)) {
-      throw_(parse_error, _f("Line exceeds %1% characters") % maxLine);
-  }
-
   if (len > 0) {
     context.linenum++;
 
     context.curr_pos  = context.line_beg_pos;
     context.curr_pos += len;
+
+    // The line is counted before it is refused, so that the error names the
+    // line itself and not the one before it; instance_t::parse skips what
+    // is left of it and goes on with the next line.
+    if (in.fail() && len == (parse_context_t::MAX_LINE - 1)) {
+      throw_(parse_error, _f("Line exceeds %1% characters") % maxLine);
+    }
 
     // linenum has just been incremented: the first line of the file is line 1
     if (context.linenum == 1 &&
